@@ -55,7 +55,21 @@ def resolve_function(c):
 
 
 def run_case(c, fn, kwargs, prop, time_limit=10, extra_env=None):
-  """Calls the real function; returns (violated: bool|None, detail dict). None = precondition false / not evaluable."""
+  """Calls the real function; returns (violated: bool|None, detail dict). None = precondition false / not evaluable.
+  The whole case (clause evaluation included) runs under one wall-clock limit."""
+  signal.signal(signal.SIGALRM, _alarm)
+  signal.alarm(time_limit + 5)
+  try:
+    return _run_case(c, fn, kwargs, prop, time_limit, extra_env)
+  except _Timeout:
+    return None, dict(reason="timeout")
+  except MemoryError:
+    return None, dict(reason="memory")
+  finally:
+    signal.alarm(0)
+
+
+def _run_case(c, fn, kwargs, prop, time_limit=10, extra_env=None):
   env = dict(kwargs)
   if extra_env:
     env.update(extra_env)
@@ -63,6 +77,8 @@ def run_case(c, fn, kwargs, prop, time_limit=10, extra_env=None):
     for cl in c.requires + getattr(c, "ghost_requires", []):
       if not concrete.eval_clause(cl.text, env):
         return None, dict(reason="precondition false")
+  except concrete.QuantifierTooLarge as e:
+    return None, dict(reason=f"precondition not evaluable concretely: {e}")
   except Exception as e:
     return None, dict(reason=f"precondition not evaluable: {e!r}")
   raise_conds = {}
@@ -79,16 +95,11 @@ def run_case(c, fn, kwargs, prop, time_limit=10, extra_env=None):
         old[ex] = _to_py(concrete.eval_expr(ex, env))
       except Exception:
         pass
-  signal.signal(signal.SIGALRM, _alarm)
-  signal.alarm(time_limit)
   try:
-    try:
-      import copy
-      result = _to_py(fn(**copy.deepcopy(kwargs)))
-    finally:
-      signal.alarm(0)
+    import copy
+    result = _to_py(fn(**copy.deepcopy(kwargs)))
   except _Timeout:
-    return None, dict(reason="timeout")
+    raise
   except Exception as e:
     name = type(e).__name__
     if name in raise_conds:
